@@ -16,7 +16,7 @@ Definition phyrequest : P hyrequest :=
          hq_vw := vw; hq_tw := tw; hq_kk := kk; hq_ln := ln |}.
 
 Inductive hyop :=
-| YAdd (id : Z) (v : vec) (toks : option (list Z)) (fields : list (str * mvalue)) (err : Z) (dupid : bool)
+| YAdd (id : Z) (v : vec) (toks : option (list Z)) (fields : list (str * mvalue)) (err : Z) (dupid : Z)
 | YRemove (id : Z) (err : Z)
 | YFlush
 | YTrain (vs : list vec) (err : Z)
@@ -27,7 +27,7 @@ Inductive hyop :=
 
 Definition phyop : P hyop :=
   t <- pz ;;
-  if t =? 1 then (id <- pz ;; v <- pvec ;; tk <- popt pzs ;; fl <- plist (ppair pstr pmvalue) ;; e <- pz ;; d <- pbool ;;
+  if t =? 1 then (id <- pz ;; v <- pvec ;; tk <- popt pzs ;; fl <- plist (ppair pstr pmvalue) ;; e <- pz ;; d <- pz ;;
                   ret (YAdd id v tk fl e d))
   else if t =? 2 then (id <- pz ;; e <- pz ;; ret (YRemove id e))
   else if t =? 3 then ret YFlush
@@ -61,7 +61,8 @@ Definition ystep (h : yh) (o : hyop) : yh + list Z :=
   match o with
   | YAdd id v toks fields err dup =>
       let '(s', e) := hy_add s id (match v with [] => None | _ => Some v end) toks fields in
-      if dup then inr (v_violation [yh_i h; -11])            (* an automatically generated id was returned twice *)
+      if dup =? 1 then inr (v_violation [yh_i h; -11])       (* an automatically generated id was returned twice *)
+      else if dup =? 2 then inr (verdict false true [yh_i h; -12])   (* the id generator went backwards: not the model's counter any more *)
       else if e =? err then next s' 0 else errmis e err
   | YRemove id err => let '(s', e) := hy_remove s id in if e =? err then next s' 0 else errmis e err
   | YFlush => next (hy_flush s) 0
